@@ -140,7 +140,7 @@ PROPS = {
         (3000, 60000), [REF, "between 2^32 and the format limits the counter is reached by hook H2, not by hashing exabytes"],
         require_classes=["stream/Groestl224", "stream/Blake256", "ff/Blake-bs128/2^64-bits-low-word-carry", "ff/Groestl-bs64/2^32-blocks", "ff/Skein-bs64/2^32-bytes", "ff/Jh-bs64/2^32-bits"]),
     "C18": P(
-        "cold-process thread stress with barrier-released first calls compared with reference results; ThreadSanitizer build and Miri data-race detector (many seeds) on the same worker; interleaved-instances shadow check",
+        "cold-process thread stress with barrier-released first calls (shared and per-thread data) compared with reference results, in run-time-dispatch and no-std builds; ThreadSanitizer build and Miri data-race detector (many seeds) on the same worker; hand-off of live instances between threads; interleaved-instances shadow check",
         "Exploration of schedules: each trial is a fresh process in which T threads make their first calls concurrently (lockstep or random order); the evidence counts entry points that were really entered concurrently.",
         "Race detection is limited to what TSan / Miri intercept and to schedules that occurred; weak-memory outcomes beyond x86-TSO / Miri's model are out of reach.",
         "case = one cold process (threads, order mode, seed; one in three a bulk trial with 4-64 KiB per cipher call), one hand-off trial (instances in mid-stream / mid-message passed between fresh threads for 1-3 rounds) or one interleaving of up to 12 instances; evaluations = results compared; distinct_nontrivial = distinct observed before/after interleavings of concurrent first calls at a one-time-initialised entry point",
